@@ -132,6 +132,9 @@ def event_world(seed):
                 w.make_read(chrom, [e0, e1, e2, e3, rm], truth={"src": gid + ".t1", "class": "misplaced-terminal-exon-right"})
                 w.make_read(chrom, [lm, e1, e2, e3, rm], truth={"src": gid + ".t1", "class": "misplaced-terminal-exon-both"})
             pos = pos + 8100 + rng.randint(2500, 3500)
+    # twin introns 2-6 bp apart at one boundary (never the first intron of the gene): a read junction between them is within
+    # the tolerance of BOTH annotated introns
+    world2.add_twin_loci(w, per_chrom=3)
     return w
 
 
@@ -174,7 +177,7 @@ def check_bed12(chk, b, clen, desc, wit):
 def run(chk, scratch):
     thorough = chk.tier == "thorough"
     chk.rule = ("reads built to trigger each correction event (junction jitter with and without sequence errors next to the junction, skipped micro-exon, "
-                "retained micro-intron, intron shift, fake terminal exons, missed short terminal exons, far alternative sites) plus noisy rich worlds, x all "
+                "retained micro-intron, intron shift, junctions lying between two annotated introns 2-6 bp apart, fake terminal exons, missed short terminal exons, far alternative sites) plus noisy rich worlds, x all "
                 "six splice-correction strategies x data types, with and without annotation / short-read BAM; every BED record judged. "
                 "non-trivial = distinct (strategy, read class, changed?) among reads whose corrected alignment differs from the input")
     strategies = list(STRATEGY_FLAGS)
